@@ -544,6 +544,18 @@ def apply_item_rewrites(toks, log, opts=None):
     toks = r12_bytes(toks, log)
     if opts.get("inherent"):
         toks = r8_inherent(toks, log, opts.get("assoc"))
+        if opts.get("rename"):
+            # R8b: a trait method that collides with an inherent fn of the same name gets the configured name
+            # (definition `fn name` and `self.name(` calls inside this impl)
+            ren = opts["rename"]
+            out = []
+            for i, t in enumerate(toks):
+                if t.kind == "id" and t.text in ren and i > 0 and (toks[i - 1].text == "fn" or (toks[i - 1].text == "." and i > 1 and toks[i - 2].text == "self" and toks[i + 1].text == "(")):
+                    log.add("R8", t, "method %s renamed" % t.text)
+                    out.append(t.clone(text=ren[t.text]))
+                else:
+                    out.append(t)
+            toks = out
     return toks
 
 
